@@ -34,7 +34,7 @@ type RespPlan struct {
 	Trailers         [][2]string `json:"trailers,omitempty"`
 	Err              *ErrSpec    `json:"err,omitempty"`
 	ErrInHeaders     bool        `json:"err_in_headers,omitempty"`     // trailers-only where the protocol allows it
-	TrailerStyle     string      `json:"trailer_style,omitempty"`      // announce | prefix
+	TrailerStyle     string      `json:"trailer_style,omitempty"`      // announce | prefix | mixed (status trailers announced, error details and every other application trailer sent with the prefix)
 	AnnounceCase     string      `json:"announce_case,omitempty"`      // spelling of the names in the Trailer header: "" canonical | lower | upper | given | lines (one header line per name)
 	StrayHTTPTrailer bool        `json:"stray_http_trailer,omitempty"` // a Connect-unary backend (whose trailers are Trailer- headers) also sets a real HTTP trailer, as a middleware might
 	CTCharset        bool        `json:"ct_charset,omitempty"`         // a REST backend labels its JSON (a Connect unary backend: its error JSON) "application/json; charset=utf-8"
@@ -117,6 +117,7 @@ type BackendObs struct {
 	RequestURI       string              `json:"request_uri,omitempty"`
 	TransferEncoding []string            `json:"transfer_encoding,omitempty"`
 	Flushes          int                 `json:"flushes,omitempty"`
+	ReqTrailers      map[string][]string `json:"req_trailers,omitempty"` // Request.Trailer as the handler found it after reading the body to its end
 	rules            []RulePlan
 	binding          *refBinding
 }
@@ -218,6 +219,12 @@ func (h *backendHandler) servePlain(st *rpcState, obs *BackendObs, rw http.Respo
 	bp := &st.plan.Backend
 	rd := &reqReader{st: st, obs: obs, body: r.Body, sizes: bp.ReadSizes}
 	rd.readAll()
+	if len(r.Trailer) > 0 {
+		obs.ReqTrailers = map[string][]string{}
+		for k, v := range r.Trailer {
+			obs.ReqTrailers[k] = append([]string(nil), v...)
+		}
+	}
 	rp := &bp.Resp
 	for _, kv := range rp.Headers {
 		rw.Header().Add(kv[0], kv[1])
@@ -1002,15 +1009,41 @@ func (h *backendHandler) writeResponse(st *rpcState, obs *BackendObs, rw http.Re
 		hd[k] = append([]string(nil), v...)
 	}
 	announce := rp.TrailerStyle == "announce"
-	if announce && len(rr.trailers) > 0 {
+	// mixed: some trailers are announced in the Trailer header, the others are sent with http.TrailerPrefix, as happens
+	// when a server announces its status trailers and a layer above it adds more later (both ways are documented net/http)
+	mixed := rp.TrailerStyle == "mixed"
+	announcedName := map[string]bool{}
+	if mixed {
+		idx := 0
+		for _, kv := range rr.trailers {
+			k := http.CanonicalHeaderKey(kv[0])
+			if _, seen := announcedName[k]; seen {
+				continue
+			}
+			switch strings.ToLower(k) {
+			case "grpc-status", "grpc-message":
+				announcedName[k] = true
+			case "grpc-status-details-bin":
+				announcedName[k] = false
+			default:
+				announcedName[k] = idx%2 == 0
+				idx++
+			}
+		}
+	}
+	if (announce || mixed) && len(rr.trailers) > 0 {
 		var names []string
 		for _, kv := range rr.trailers {
-			names = append(names, kv[0])
+			if announce || announcedName[http.CanonicalHeaderKey(kv[0])] {
+				names = append(names, kv[0])
+			}
 		}
-		announceTrailers(hd, names, rp.AnnounceCase)
+		if len(names) > 0 {
+			announceTrailers(hd, names, rp.AnnounceCase)
+		}
 	}
 	early := map[int]bool{}
-	if rp.EarlyTrailers && !announce {
+	if rp.EarlyTrailers && !announce && !mixed {
 		// a handler that starts a multi-valued trailer before it writes the head and adds to it at the end
 		seen := map[string]int{}
 		for _, kv := range rr.trailers {
@@ -1063,7 +1096,7 @@ func (h *backendHandler) writeResponse(st *rpcState, obs *BackendObs, rw http.Re
 			continue
 		}
 		// like connect-go and grpc-go, ask the writer for its header map at the time the trailers are set
-		if announce {
+		if announce || (mixed && announcedName[http.CanonicalHeaderKey(kv[0])]) {
 			rw.Header().Add(kv[0], kv[1])
 		} else {
 			rw.Header().Add(http.TrailerPrefix+kv[0], kv[1])
